@@ -42,6 +42,9 @@ open ZnVerif.Properties.C18
 #print axioms ZnVerif.Properties.C05.caret_under_offender
 #print axioms ZnVerif.Properties.C05.leftover_error_at_first_leftover_token
 #print axioms ZnVerif.Properties.C05.overindented_line_after_fix
+#print axioms ZnVerif.Properties.C05.input_state_error_at_block_ending_token
+#print axioms ZnVerif.Properties.C05.line_after_input_line_after_fix
+#print axioms ZnVerif.Properties.C05.input_line_last_after_fix
 
 -- regenerated tie: where the Go evaluator pushes / pops frames, opens / closes scopes, stamps lines, reads / writes the return slot
 -- (Generated/FrameSites.lean, extracted from $ZN_REPO on every run) = the sites the models mirror (Properties/C09Sites.lean)
